@@ -48,6 +48,29 @@ theorem hier_request_fidelity (cfg : Cfg) (hsc : cfg.selfConsistent = true)
     (fun hm => by have := hmp hm; exact ⟨by simpa [fitsV] using this.1, fun _ => by simpa [mpReadable] using this.2⟩)
     (by simpa [plain, ownSpell] using hpl)
 
+/-- **Both ends.** What `serialize(REQUEST)` of the protocol itself writes for conformant arguments — the input message through
+    `_object_to_doc` (T2: `hier.client-request`) — is read by `deserialize(REQUEST)` of the same configuration as exactly those
+    arguments, whenever the written request still names the method: MessagePack-RPC (method name in the envelope) or
+    `ignore_wrappers=False`. (With `ignore_wrappers=True` the other protocols write the request without the method name:
+    known finding `client:ignore-wrappers-request-without-method-name`.) -/
+theorem hier_client_request_roundtrip (cfg : Cfg) (hsc : cfg.selfConsistent = true)
+    (hw : cfg.proto = .msgpackRpc ∨ cfg.ignoreWrappers = false)
+    (R : Registry) (name ns : Text) (base : Option Text) (fields : Fields) (o : Occ) (args : List (Text × Val))
+    (hwf : wfTy (.obj name ns base fields o) = true) (hc : conformsFields fields args = true)
+    (hmp : cfg.proto.isMsgpack = true → fitsFields facts08 args = true ∧ mpReadableFields fields = true)
+    (hpl : plainFields cfg.complexAs fields args = true) :
+    decodeRequest facts08 facts02 cfg R (.obj name ns base fields o)
+      (encode facts08 cfg R (.obj name ns base fields o) (.obj name args)) = .good (.obj name args) := by
+  have h := hier_request_fidelity cfg hsc R name ns base fields o args hwf hc hmp hpl
+  have he : encode facts08 cfg R (.obj name ns base fields o) (.obj name args)
+      = encOne R (ownSpell facts08 cfg) (.obj name ns base fields o) (.obj name args) :=
+    encode_eq_encOne R (ownSpell facts08 cfg) _ _ (by simp) (by intro vs hv; cases hv)
+  have hr : requestDoc cfg (ownSpell facts08 cfg) R (.obj name ns base fields o) (.obj name args)
+      = encOne R (ownSpell facts08 cfg) (.obj name ns base fields o) (.obj name args) := by
+    simp only [requestDoc, ownSpell]
+    rcases hw with h' | h' <;> simp [h']
+  rw [he, ← hr]; exact h
+
 /-- The documented alternative spellings are understood by every configuration: `str` keys, numbers as numbers,
     dates / durations / enumerations / base64 as `str` text (MessagePack: raw `bin` for plain byte arrays, text for
     integers outside the 64-bit window), objects as maps or — `cas = list` — as positional lists for fully populated
